@@ -4,7 +4,7 @@ manifest stays valid while checks are added)."""
 import json, os
 
 ENV = "GOFLAGS=-mod=mod GOPROXY=off GOSUMDB=off GOTOOLCHAIN=local"
-TECH = "bounded symbolic execution of the real go/ssa code (own executor gosym) + SMT (z3 5.1.0, unsat obligations cross-checked with z3 4.8.12; cvc5 bv-as-int for decimal kernels); counterexamples replayed natively"
+TECH = "bounded symbolic execution of the real go/ssa code (own executor gosym) + SMT (z3 5.1.0 decides every branch and obligation; unsat obligations cross-checked with z3 4.8.12 except in the whole-connection entries marked no_cross in checks/<id>.json; cvc5 bv-as-int for decimal kernels and undecided obligations); counterexamples replayed natively before they are reported"
 
 import glob
 claimed = {}
